@@ -33,6 +33,7 @@ type verifSchedResult struct {
 	Violations   []verifSchedViolation
 	Sample       []int
 	SamplePoints []string
+	Undrivable   string
 }
 
 type verifSchedViolation struct {
@@ -117,6 +118,10 @@ func verifSchedExplore(req *verifReq) interface{} {
 				res.Violations = append(res.Violations, verifSchedViolation{class, append([]int{}, x.Choices...), obs, expected})
 			}
 		}
+		if strings.Contains(x.Diverged, "outside the scheduler") {
+			res.Undrivable = x.Diverged
+			return
+		}
 		if x.Diverged != "" {
 			viol("replay-divergence", "deterministic replay")
 			return
@@ -145,7 +150,7 @@ func verifSchedExplore(req *verifReq) interface{} {
 			viol("foundIssues-wrong", fmt.Sprint(len(wantLines) > 0))
 		}
 	}
-	verifmcrt.Explore(req.FileDepth, body, visit)
+	verifmcrt.ExploreUntil(req.FileDepth, body, visit, func() bool { return res.Undrivable != "" })
 	_ = sort.Strings
 	return res
 }
